@@ -55,7 +55,7 @@ def pick(v, tag):
     return v
 
 
-def layout(packed, tag=None):
+def layout(packed, tag=None, strict=True):
     """{(byte, bit): 0 | 1 | ('s', name, k)} for the whole record, or raises AnalysisError."""
     st = packed.struct
     out = {}
@@ -64,7 +64,11 @@ def layout(packed, tag=None):
             out[(byte, bit)] = 0
     for sl, a in zip(st.slots, packed.args):
         if a is None:
-            raise AnalysisError("a packed argument left the analysable fragment")
+            if strict:
+                raise AnalysisError("a packed argument left the analysable fragment")
+            for k in range(8 * sl.size):
+                out[(sl.offset + sl.size - 1 - k // 8, k % 8)] = ("?", "not analysable", k)
+            continue
         v = pick(a, tag)
         if isinstance(v, B.Lin) and v.trunc:
             v = B.BV.src(f"lin:{v.raw.name if isinstance(v.raw, B.Sym) else '?'}*{v.mul}+{v.add}", 8 * sl.size)
